@@ -32,6 +32,8 @@ def _classify(ctx):
                     pass
             if _custom_unary_pattern(root):
                 f['sig'] = 'C06:custom.values:number-after-number:unary'
+            elif _glued_slash_currency(root):
+                f['sig'] = 'C06:glued-number-currency:slash-read-as-currency'
         except Exception:
             pass
 
@@ -59,6 +61,27 @@ def _custom_unary_pattern(root):
     return False
 
 
+def _glued_slash_currency(root):
+    """The recorded finding, exactly: a currency token directly preceded (nothing with text in between) by numbers glued to a
+    division sign - `/7.USD` - so that sign, digits and currency together are ONE valid currency lexeme."""
+    import re
+    toks = [t for t in root.token_store if t.raw_text]
+    for i, t in enumerate(toks):
+        if type(t).__name__ != 'Currency':
+            continue
+        j = i - 1
+        while j >= 0 and type(toks[j]).__name__ == 'Number':
+            j -= 1
+        if j >= 0 and j < i - 1 and type(toks[j]).__name__ == 'MulOp' and toks[j].raw_text == '/':
+            lexeme = ''.join(x.raw_text for x in toks[j:i + 1])
+            try:
+                edits.P().parse_token(lexeme, models.Currency)
+                return True
+            except Exception:
+                pass
+    return False
+
+
 def _probes(ctx):
     """Deterministic probes of the two recorded findings (so that they are reported on every run)."""
     p = edits.P()
@@ -69,6 +92,16 @@ def _probes(ctx):
     if len(again.raw_values) != len(c.raw_values):
         ctx.oracle_fail('C06:custom.values:number-after-number:unary', f'{intro.pr(c)!r} re-reads with {len(again.raw_values)} value(s)',
                         {'probe': 'custom-unary'})
+    g = p.parse('2000-01-01 balance Assets:Foo 100.00USD', models.File)
+    g.raw_directives[0].raw_number.raw_number_add_expr = p.parse('0/7.', models.NumberExpr).raw_number_add_expr
+    ctx.case(('probe', 'glued-slash-currency'))
+    try:
+        again_g = p.parse(intro.pr(g), models.File)
+        same = session.reparse_struct(again_g) == session.reparse_struct(g)
+    except Exception:
+        same = False
+    if not same:
+        ctx.oracle_fail('C06:glued-number-currency:slash-read-as-currency', f'{intro.pr(g)!r} re-reads with the currency {"/7.USD"!r}', {'probe': 'glued-slash-currency'})
     t = p.parse('2000-01-01 * "p" "n"', models.Transaction)
     t.raw_string2 = None
     again = p.parse(intro.pr(t), models.Transaction)
